@@ -306,6 +306,11 @@ func decOutcome(err error) string {
 // runEnc plays an encoder script; returns the encoder and the observations.
 func runEnc(t []string) (*encode.Encoder, []string) {
 	e := &encode.Encoder{}
+	return e, playEnc(e, t)
+}
+
+// playEnc plays an encoder script on e and returns the observations.
+func playEnc(e *encode.Encoder, t []string) []string {
 	var obs []string
 	for i := 0; i < len(t); {
 		switch t[i] {
@@ -341,7 +346,7 @@ func runEnc(t []string) (*encode.Encoder, []string) {
 			i = j
 		}
 	}
-	return e, obs
+	return obs
 }
 
 func optsOfToks(t []string) []decode.DecodeOption {
